@@ -208,7 +208,8 @@ def oracle_det(rng, sets, n=4):
     out = []; cnt = 0
     for sname, g in sets:
         for t in range(n):
-            T1c, T2c, T1t, T2t = rng.uniform(2e-5, 9e-5, 4); pc, pt = rng.uniform(1e-3, 5e-3, 2); p2 = 0.3; tt = rng.uniform(2e-7, 5e-7); a, b = rng.uniform(-3, 3, 2)
+            T1c, T1t = rng.uniform(2e-5, 9e-5, 2); T2c = T1c * rng.uniform(0.3, 2.0); T2t = T1t * rng.uniform(0.3, 2.0)   # domain: T2 <= 2 T1
+            pc, pt = rng.uniform(1e-3, 5e-3, 2); p2 = 0.3; tt = rng.uniform(2e-7, 5e-7); a, b = rng.uniform(-3, 3, 2)
             th = rng.uniform(-3, 3)
             chk = [("X", g.X(a, pc, T1c, T2c), nf.X(a, 0, 0, 0), det_pred(2, [(TG, T1c)]), (a, pc, T1c, T2c)),
                    ("SX", g.SX(a, pc, T1c, T2c), nf.SX(a, 0, 0, 0), det_pred(2, [(TG, T1c)]), (a, pc, T1c, T2c)),
